@@ -339,3 +339,74 @@ func FromJSON(a *model.Claims, doc []byte) (psatoken.IClaims, error) {
 	}
 	return c, nil
 }
+
+// P1Of / P2Of return the base-profile struct inside a claims object (nil if
+// it is not built on that base).
+func P1Of(x psatoken.IClaims) *psatoken.P1Claims {
+	switch t := x.(type) {
+	case *psatoken.P1Claims:
+		return t
+	case *extprof.ExtP1Claims:
+		return &t.P1Claims
+	}
+	return nil
+}
+
+func P2Of(x psatoken.IClaims) *psatoken.P2Claims {
+	switch t := x.(type) {
+	case *psatoken.P2Claims:
+		return t
+	case *extprof.ExtP2Claims:
+		return &t.P2Claims
+	}
+	return nil
+}
+
+// AssignInPlace rewrites the existing object x so that it holds the abstract
+// set b (same base profile), the way a caller edits claims he already has:
+// exported fields are overwritten; if retained component pointers (as handed
+// out by GetSoftwareComponents) are given and their number matches, the
+// components are edited through those pointers and the container object is
+// kept, otherwise the container is replaced.
+func AssignInPlace(x psatoken.IClaims, b *model.Claims, retained []psatoken.ISwComponent) error {
+	y, err := Build(b)
+	if err != nil {
+		return err
+	}
+	keep := len(retained) > 0 && len(retained) == len(b.Comps)
+	if keep {
+		for i := range retained {
+			sc, ok := retained[i].(*psatoken.SwComponent)
+			if !ok || sc == nil {
+				keep = false
+				break
+			}
+		}
+	}
+	if keep {
+		for i := range retained {
+			*(retained[i].(*psatoken.SwComponent)) = *RealComp(&b.Comps[i])
+		}
+	}
+	if p, q := P1Of(x), P1Of(y); p != nil && q != nil {
+		cont := p.SwComponents
+		canon := p.CanonicalProfile
+		*p = *q
+		p.CanonicalProfile = canon
+		if keep {
+			p.SwComponents = cont
+		}
+		return nil
+	}
+	if p, q := P2Of(x), P2Of(y); p != nil && q != nil {
+		cont := p.SwComponents
+		canon := p.CanonicalProfile
+		*p = *q
+		p.CanonicalProfile = canon
+		if keep {
+			p.SwComponents = cont
+		}
+		return nil
+	}
+	return fmt.Errorf("AssignInPlace: %T and %T are not of the same base profile", x, y)
+}
